@@ -38,6 +38,9 @@ ARCH = {
     'unknown':    {'kex': ['curve25519-sha256', 'foo-kex@example.com'], 'key': ['ssh-ed25519', 'bar-key'], 'enc': ['aes128-ctr', 'baz-cbc'], 'mac': ['hmac-sha2-256', 'qux-etm@openssh.com'], 'hostkeys': HK_ED},
     'gss':        {'kex': ['gss-gex-sha1-dZuIebMjgUqaxvbF7hDbAw==', 'gss-group14-sha256-toWM5Slw5Ew8Mqkay+al2g==', 'curve25519-sha256'], 'key': ['ssh-ed25519', 'null'], 'hostkeys': HK_ED},
     'weakmac':    {'kex': ['diffie-hellman-group1-sha1'], 'key': ['ssh-dss', 'ssh-ed25519'], 'enc': ['3des-cbc', 'arcfour'], 'mac': ['hmac-md5', 'hmac-sha2-256-96'], 'hostkeys': HK_ED},
+    'probe-stall': {'kex': ['curve25519-sha256'], 'key': ['ssh-rsa', 'ssh-ed25519'], 'hostkeys': dict(rsa_hk(2048), **HK_ED), 'faults': [['kexdh_reply', 1, 'stall']]},          # the RSA probe never gets its reply
+    'probe-noreply': {'kex': ['curve25519-sha256'], 'key': ['ssh-rsa', 'ssh-ed25519'], 'hostkeys': HK_ED},                                                                 # the server hangs up on the RSA probe
+    'rsa1024-abort': {'kex': ['curve25519-sha256'], 'key': ['ssh-rsa', 'ssh-ed25519'], 'hostkeys': dict(rsa_hk(1024), **HK_ED), 'faults': [['kexinit', 2, ['set_len', 0x1235]]]},  # earns a note, then a bad packet ends the scan
     'ssh1':       {'proto': 1},
     'refuse':     None,
 }
@@ -51,6 +54,7 @@ macs = hmac-sha2-256-etm@openssh.com
 '''
 MODES = {'text': ['-n'], 'json': ['-n', '-j'], 'policy': ['-n', '-P', None], 'policy-json': ['-n', '-j', '-P', None]}
 _solo_cache = {}
+OOB_LINES = ('[exception] invalid ssh packet (block size)', '[exception] packet checksum CRC32 mismatch.')
 
 
 def add_target(net, host, arch):
@@ -94,6 +98,7 @@ def blocks_of(out, mode):
                 res.setdefault(key, []).append(d)
         return res
     res = {}
+    out = '\n'.join(l for l in out.split('\n') if report.strip_ansi(l) not in OOB_LINES)      # C08's recorded finding: these lines are printed out of band
     for b in report.split_blocks(out):
         b = b.strip('\n')
         tr = report.TextReport(b)
@@ -166,7 +171,7 @@ def eval_case(case):
             return mkres(case, nt=True, classes=['crashed'], fails=fails)
         got = blocks_of(r.out, mode)
         if got is None:
-            if any(ARCH[a] is None for a in archs):
+            if any(ARCH[a] is None or a == 'rsa1024-abort' for a in archs):
                 # a target that cannot be reached makes the JSON array unparseable: C08's recorded finding, nothing to compare here
                 return mkres(case, nt=False, classes=['json-with-unreachable-target'], fails=[])
             fails.append(['multi-target-json-unparseable', r.out[:300]])
@@ -251,7 +256,9 @@ def run(ctx):
         free.append({'archs': [a, b, c], 'mode': rng.choice(['text', 'json']), 'threads': rng.choice([2, 3]), 'choices': None})
     ctx.map(free)
     real = []
-    for tr in rng.sample(list(itertools.permutations([a for a in ORDER if a not in ('refuse', 'ssh1')], 3)), 8 if ctx.quick else 120):
+    # (the same real server serves the single-target run and the list run, so only archetypes whose script does not depend on the connection index)
+    real_ok = [a for a in ORDER if ARCH[a] is not None and a != 'ssh1' and all(f[1] == '*' for f in ARCH[a].get('faults', []))]
+    for tr in rng.sample(list(itertools.permutations(real_ok, 3)), 8 if ctx.quick else 120):
         real.append({'kind': 'real', 'archs': list(tr) + [tr[0]], 'mode': rng.choice(['text', 'json']), 'threads': rng.choice([1, 2, 4])})
     ctx.map(real, chunk=1)
     ctx.note(traces_validated_against_impl=len(real))
